@@ -254,6 +254,9 @@ func (x *confExec) do(op *confOp) {
 		if sc != nil && sc.alive() && sc.conn != nil {
 			sc.conn.Stall(op.Flag)
 			if op.Flag {
+				sc.everStalled = true
+			}
+			if op.Flag {
 				c.Count("fault.client_stalled", 1)
 			}
 		}
